@@ -457,6 +457,81 @@ pub fn c13(ctx: &mut Ctx) {
         let n = (4 * (idx % 63 + 1)) as u8;
         transparency_case(l, &images[b], n, &bases[b].builder_name(), bases[b].type_name(), "");
     });
+    // padding requested from the crate's own builders (both API flavours; the builders set the padding before the
+    // content): the packet they write must equally be accepted, report the amount and show the unpadded content
+    {
+        let bpads: [u8; 3] = [4, 12, 252];
+        ctx.bound("builder-made padding", "every base packet built by the crate's builder with padding {4,12,252}, borrowed and owned API flavour, compared with the unpadded reference image");
+        ctx.run_space("padding-requested-from-the-builder", nb * 6, |idx, l| {
+            let b = (idx / 6) as usize;
+            let n = bpads[(idx % 3) as usize];
+            let owned = (idx / 3) % 2 == 1;
+            let mut cfg = bases[b].clone();
+            cfg.set_pad(n);
+            l.evals += 1;
+            l.states += 1;
+            l.sample(|| format!("{} built with padding {} ({})", cfg.short(), n, if owned { "owned" } else { "borrowed" }));
+            let built = match super::common::build_bytes(l, "builder-padded", &cfg, crate::subject::build::Variant::new(owned, crate::subject::build::Wrap::None)) {
+                Some(super::common::Built::Bytes(b)) => b,
+                _ => {
+                    l.hit("builder refused or failed (other properties' domain)");
+                    return;
+                }
+            };
+            l.transitions += 2;
+            let r = guard::catch(|| (observe::parse_and_observe(&images[b]), observe::parse_and_observe(&built)));
+            let name = bases[b].builder_name();
+            let show = || format!("{} built with padding {} ({}): {}", cfg.short(), n, if owned { "owned" } else { "borrowed" }, hex_short(&built));
+            match r {
+                Err(pi) => l.subject_panic(&format!("parse-builder-padded:{}", name), &pi, show),
+                Ok((Err(_), _)) => l.hit("unpadded packet not parsed (other properties' domain)"),
+                Ok((Ok(plain), Err(e))) => {
+                    let _ = plain;
+                    l.violation(format!("builder-padded-rejected:{}", bases[b].type_name()), show, || format!("{:?}", e))
+                }
+                Ok((Ok(plain), Ok(mut po))) => {
+                    l.validated += 1;
+                    if po.pad() != n {
+                        l.violation(format!("builder-padded:padding-accessor-wrong:{}", bases[b].type_name()), show, || format!("padding() reports {}", po.pad()));
+                    }
+                    po.set_pad(0);
+                    if !observe::same_observation(&po, &plain) {
+                        let f = super::common::diff_field(&po, &plain);
+                        l.violation(format!("builder-padded:content-changed-by-padding:{}:{}", name, f), show, || format!("unpadded: {} padded: {}", plain.short(), po.short()));
+                    } else {
+                        l.hit("transparent (builder-made padding)");
+                    }
+                }
+            }
+        });
+        ctx.require_hit("transparent (builder-made padding)");
+    }
+    // large packets: where the padded size crosses 65 536 bytes (a 16-bit byte count or shifted word count wraps)
+    // and up to the 262 144-byte maximum
+    {
+        let mut big: Vec<Pkt> = Vec::new();
+        for total in [65_280usize, 65_532, 65_536, 65_540, 131_072, 261_888] {
+            big.push(Pkt::App { ssrc: 0x0A0B_0C0D, subtype: 9, name: "big!".into(), data: (0..total - 12).map(|i| (i / 4) as u8 ^ 0x5A).collect(), pad: 0 });
+            big.push(Pkt::Unknown { pt: 211, count: 7, data: (0..total - 4).map(|i| (i / 4) as u8 ^ 0xA5).collect(), pad: 0 });
+            big.push(Pkt::Fb { kind: Kind::Payload, sender: 1, media: 2, fci: Fci::Sli((0..(total - 12) / 4).map(|i| ((i * 37) as u16 & 0x1FFF, (i * 11 + 1) as u16 & 0x1FFF, (i % 64) as u8)).collect()), pad: 0 });
+            big.push(Pkt::Fb { kind: Kind::Transport, sender: 1, media: 2, fci: Fci::Nack((0..((total - 12) / 4) as u32).map(|i| (i * 17) as u16).collect::<std::collections::BTreeSet<u16>>().into_iter().collect()), pad: 0 });
+            let items = vec![Item::new(1, &[b'x'; 250])];
+            big.push(Pkt::Sdes { chunks: vec![Chunk { ssrc: 0x0100_0000, items: (0..(total / 252).min(1000)).map(|_| items[0].clone()).collect() }], pad: 0 });
+        }
+        let big: Vec<(Vec<u8>, String, &'static str)> = big.iter().filter(|p| repr::representable(p)).map(|p| (wire::encode(p), p.builder_name(), p.type_name())).collect();
+        let pads: [u8; 4] = [4, 8, 128, 252];
+        ctx.bound("large packets", "APP / unknown / SLI / NACK / SDES packets of about 65280..261888 bytes x paddings {4,8,128,252} (where the padded packet still fits 262144 bytes)");
+        ctx.run_space("padding-transparency-large", big.len() as u64 * 4, |idx, l| {
+            let (img, name, ty) = &big[(idx / 4) as usize];
+            let n = pads[(idx % 4) as usize];
+            if img.len() + n as usize > 262_144 {
+                l.evals += 1;
+                l.hit("(padded packet would exceed the maximum size)");
+                return;
+            }
+            transparency_case(l, img, n, name, ty, "");
+        });
+    }
     // Shapes the parser accepts although RFC 3550 does not call them well-formed (an SDES chunk whose items end
     // on a 32-bit boundary without a terminator - the repository's own parse_cname_sdes vector is one -, a bare
     // SSRC, a count field that disagrees with the chunks): the conditional form of the property is checked on
